@@ -15,7 +15,9 @@ import (
 	"encoding/json"
 	"fmt"
 	"os"
+	"runtime"
 	"strings"
+	"sync/atomic"
 	"testing"
 	"time"
 
@@ -96,8 +98,30 @@ type vkResult struct {
 	upstream  int
 }
 
+// vkBeat is touched before every replay; the watchdog dumps all goroutine stacks into the shard log when a single
+// replay takes longer than 20 s (diagnostic only — nothing is judged by it).
+var vkBeat atomic.Int64
+
+func vkWatchdog() {
+	go func() {
+		dumped := int64(0)
+		for {
+			time.Sleep(2 * time.Second)
+			b := vkBeat.Load()
+			if b == 0 || b == dumped || time.Since(time.Unix(0, b)) < 20*time.Second {
+				continue
+			}
+			dumped = b
+			buf := make([]byte, 1<<20)
+			n := runtime.Stack(buf, true)
+			fmt.Fprintf(os.Stderr, "C08 watchdog: one replay has been running for %s; goroutines:\n%s\n", time.Since(time.Unix(0, b)).Round(time.Second), buf[:n])
+		}
+	}()
+}
+
 // runOnce replays one history from the cold state.
 func (w *vkWorld) runOnce(sc vkScenario) vkResult {
+	vkBeat.Store(time.Now().UnixNano())
 	w.reset(sc.Cfg)
 	res := vkResult{at: -1}
 	start := time.Now()
@@ -236,6 +260,7 @@ func vkConfigs(thorough, dnssec bool) []vkCfg {
 func vkExplore(t *testing.T, unit string, dnssec bool) {
 	c := vkit.Init(unit)
 	defer c.Close()
+	vkWatchdog()
 	if c.Replay != nil {
 		var sc vkScenario
 		if err := json.Unmarshal(c.Replay, &sc); err != nil {
